@@ -110,13 +110,17 @@ def subsets(n):
         yield [e for e in range(n) if mask >> e & 1]
 
 def random_order(rng, subset, dup_prob=0.3):
+    """a shuffled arrival order of `subset` with duplicate submissions; no symbol is submitted more than 6 times (the harness keeps at
+    most 8 buffers per symbol)"""
     o = list(subset)
     rng.shuffle(o)
-    out = []
+    out = []; cnt = {}
     for e in o:
-        out.append(e)
+        out.append(e); cnt[e] = cnt.get(e, 0) + 1
         if out and rng.random() < dup_prob:
-            out.append(rng.choice(out))
+            d = rng.choice(out)
+            if cnt.get(d, 0) < 6:
+                out.append(d); cnt[d] = cnt.get(d, 0) + 1
     return out
 
 def ldpc_loss_subset(rng, cfg, around_threshold=True):
